@@ -362,3 +362,91 @@ func init() {
 		Outside: []string{"the gc compiler's escape analysis and inlining decisions", "untracked-by-rule sources (own MAC, router, multicast, off-LAN) are covered for aliasing but the allocation claim is for tracked hosts only"},
 	})
 }
+
+// ---- C04 / C05 / C06 / C10: one inductive-step harness family, findings attributed by assertion prefix
+
+func shapeCount(h1, h2 int) int {
+	n := 1
+	for a := 1; a <= h1; a++ {
+		n += 1 << a
+	}
+	for a := 1; a <= h2; a++ {
+		for b := 1; b <= h2; b++ {
+			n += 1 << (a + b)
+		}
+	}
+	return n
+}
+
+func stepJobs(tier string) []Job {
+	h1, h2 := int64(3), int64(1)
+	if tier == "thorough" {
+		h1, h2 = 3, 2
+	}
+	n := shapeCount(int(h1), int(h2))
+	r := []string{"stepped"}
+	var jobs []Job
+	for _, kind := range []int64{4, 0, 6} {
+		jobs = append(jobs, Job{Pkg: "root", Func: "VerifC04Frame", Args: []int64{kind, h1, h2}, SplitN: n, Cfg: cfg(64, 900), Reach: r})
+	}
+	jobs = append(jobs, Job{Pkg: "root", Func: "VerifC04Purge", Args: []int64{h1, h2}, SplitN: n, Cfg: cfg(64, 900), Reach: r})
+	jobs = append(jobs, Job{Pkg: "root", Func: "VerifC04DHCP", Args: []int64{h1, h2}, SplitN: n, Cfg: cfg(64, 900), Reach: r})
+	return jobs
+}
+
+func stepBounds(tier string) map[string]string {
+	sh := "no MAC entry; one entry with 1..3 hosts; two entries with 1 host each (19 shapes incl. every IPv4/IPv6 mix)"
+	if tier == "thorough" {
+		sh = "no MAC entry; one entry with 1..3 hosts; two entries with 1..2 hosts each (51 shapes incl. every IPv4/IPv6 mix)"
+	}
+	return map[string]string{
+		"pre-states": "every heap shape: " + sh + "; every field value: MACs, IPv4 addresses in the /24 home LAN, IPv6 link-local addresses, online flags, LastSeen (any instant in the previous ~71 minutes), captured / router flags; constrained only by the representation invariant (distinct MACs, distinct indexed IPs, host.Online => entry.Online, at most one online IPv4 host per MAC = entry.IP4); no pending notifications",
+		"steps":      "Parse+Notify of an IPv4 (34 B), ARP (42 B) or IPv6 (54 B) frame with every header field symbolic (own / router / multicast / client MACs, on-LAN / off-LAN / zero / link-local / global addresses by value); purge(now); DHCPv4Update(mac, on-LAN ip)",
+		"induction":  "one step from an arbitrary invariant state: invariant preserved + transition specification + notification contract => holds for histories of any length over these shapes",
+	}
+}
+
+func prefixFilter(prefix string, panics bool) func(Finding) bool {
+	return func(f Finding) bool {
+		if f.Kind == "assert" {
+			return len(f.Expr) >= len(prefix) && f.Expr[:len(prefix)] == prefix
+		}
+		return panics
+	}
+}
+
+func init() {
+	common := []string{
+		"inductive-step argument: a counterexample from a pre-state no history reaches would mean the assumed invariant is too weak (it is then strengthened, not reported); reported violations are replayed natively by rebuilding the pre-state through the same harness code",
+		"stubs as in C01; time is an explicit parameter (purge(now), LastSeen fields); deadlines are the library defaults (2 / 5 / 61 minutes)",
+		"the session's own host and router entries created by NewSession are not part of the pre-states",
+	}
+	register(&Prop{ID: "C04", Jobs: stepJobs, Bounds: stepBounds, Assumptions: common, Filter: prefixFilter("C04:", false),
+		Technique: "inductive step by bounded symbolic execution from symbolic invariant states; transition specification (reference model over (MAC, IP, online) triples) asserted by SMT",
+		Outside:   []string{"more than 6 tracked hosts / 2 MAC entries", "IPv6 global-unicast pre-existing hosts", "the probe goroutine's frames (C07)", "name updates"}})
+	register(&Prop{ID: "C05", Jobs: stepJobs, Bounds: stepBounds, Assumptions: common, Filter: prefixFilter("C05:", true),
+		Technique: "inductive step by bounded symbolic execution: representation invariant assumed on a symbolic pre-state, one operation executed from the real SSA, invariant and PrintTable self-check asserted",
+		Outside:   []string{"Capture / Release / SetDHCPv4IPOffer (they only touch MAC-entry scalars)", "quiescent points of concurrent executions (C09)"}})
+	register(&Prop{ID: "C06", Jobs: stepJobs, Bounds: stepBounds, Assumptions: common, Filter: prefixFilter("C06:", false),
+		Technique: "inductive step by bounded symbolic execution: notification contract (who is notified, in which order, with which content, nothing left pending) asserted on the drained channel after each step",
+		Outside:   []string{"notifications caused by name updates", "notification channel overflow (precondition: drained after every step)", "eventual delivery for hosts that never send another frame (liveness)"}})
+	c10Jobs := func(tier string) []Job {
+		jobs := stepJobs(tier)
+		n := int64(40)
+		if tier == "thorough" {
+			n = 56
+		}
+		jobs = append(jobs, Job{Pkg: "root", Func: "VerifC10NDPOptions", Args: []int64{n}, SplitN: 8, Cfg: cfg(64, 400)})
+		jobs = append(jobs, Job{Pkg: "root", Func: "VerifC10DNSEntry", SplitN: 192, Cfg: Config{MaxLoop: 64, MaxWall: 600, Stubs: map[string]bool{"concidx": true}}})
+		return jobs
+	}
+	c10Bounds := func(tier string) map[string]string {
+		b := stepBounds(tier)
+		b["NDP options"] = "a single NDP option of every type, length 0..40 (quick) / 0..56 (thorough) bytes (DNSSL <= 16), all contents: the NewOptions structure (prefixes, RDNSS servers, link-layer addresses, route information, DNSSL) stored by the ICMPv6 handler"
+		b["DNS entry"] = "the C08 message templates (one arbitrary field, every truncation): the DNSEntry built by DecodeQuestion/DecodeAnswers and its Copy()"
+		return b
+	}
+	register(&Prop{ID: "C10", Jobs: c10Jobs, Bounds: c10Bounds, Assumptions: common, Filter: prefixFilter("C10:", false),
+		Technique: "provenance invariant by bounded symbolic execution: after each step everything reachable from the session is walked and must not reference the tagged packet buffer (exact per path, all inputs in the bound)",
+		Outside:   []string{"the four handlers' retained state (DHCP leases, router / DNS tables): not encoded in this session", "SSDP / UPnP"}})
+}
